@@ -50,11 +50,47 @@ class SeedGen(Gen):
     """G2 with (mostly) conjunctive goals: the third-party problem grammar checks the requirements of or / imply /
     quantifiers / = against an empty requirement set, i.e. rejects them in goals (generator restriction only)."""
 
-    def __init__(self, rng, plain_goal=0.85, keep_minus=False, allow_dup=False, **opts):
+    def __init__(self, rng, plain_goal=0.85, keep_minus=False, allow_dup=False, scoped=False, **opts):
         Gen.__init__(self, rng, **opts)
         self.plain_goal = plain_goal
         self.keep_minus = keep_minus
         self.allow_dup = allow_dup
+        self.scoped = scoped
+
+    def action(self, name):
+        """slice `scope`: every action with parameters gets quantifiers (exists / forall in the precondition or in the
+        condition of an effect, forall effects) whose variable ranges over the type of one of its parameters, i.e. the
+        places where a PDDL author may reuse the parameter's name for the bound variable (structure only)"""
+        a = Gen.action(self, name)
+        if not self.scoped or not a["params"]:
+            return a
+        r = self.r
+        params = {p["name"]: p["type"] for p in a["params"]}
+        for _ in range(r.choice([1, 1, 2])):
+            t = r.choice(a["params"])["type"]
+            where = r.choice(["pre", "pre", "cond", "forall-effect"])
+            if where == "forall-effect":
+                for _ in range(40):
+                    ef = self.effect(params)
+                    if ef is not None and ef["forall"] and ef["forall"][0]["type"]["name"] == t["name"]:
+                        a["effects"] = self.drop_static_conflicts(a["effects"] + [ef])
+                        break
+                else:
+                    where = "pre"
+            if where in ("pre", "cond"):
+                body = None
+                for _ in range(12):
+                    body = self.bool_expr(r.choice([0, 1, 1]), params, {"v0": t})
+                    if _mentions(body, "var", "v0"):
+                        break
+                q = upj.E(r.choice(["exists", "forall"]), [body], vars_=[{"name": "v0", "type": t}])
+                spots = [i for i, ef in enumerate(a["effects"]) if ef["c"] == upj.TRUE_E]
+                if where == "cond" and spots:
+                    i = r.choice(spots)
+                    a["effects"] = [dict(ef, c=q) if j == i else ef for j, ef in enumerate(a["effects"])]
+                else:
+                    a["pre"] = a["pre"] + [q]
+        return a
 
     def num_expr(self, depth, params, vs, intonly=False, nodiv=True):
         for _ in range(12):
@@ -78,6 +114,48 @@ class SeedGen(Gen):
             P["goals"] = [self.bool_expr(2, {}, {}) for _ in range(self.r.randint(1, 2))]
             self.o = saved
         return P
+
+
+def _mentions(e, op, name):
+    return (e["op"] == op and e["name"] == name) or any(_mentions(a, op, name) for a in e["args"])
+
+
+def _free_refs(e, bound=frozenset()):
+    """the parameters and the free variables an expression refers to: {("param" | "var", name)} (structure only)"""
+    if e["op"] == "param":
+        return {("param", e["name"])}
+    if e["op"] == "var":
+        return set() if e["name"] in bound else {("var", e["name"])}
+    if e["op"] in ("exists", "forall"):
+        bound = bound | {v["name"] for v in e["vars"]}
+    out = set()
+    for a in e["args"]:
+        out |= _free_refs(a, bound)
+    return out
+
+
+def _eq_pairs(e):
+    """the pairs of parameters / variables compared by some `=` inside e (structure only)"""
+    out = set()
+    if e["op"] == "eq" and all(a["op"] in ("param", "var") for a in e["args"]):
+        out.add(frozenset((a["op"], a["name"]) for a in e["args"]))
+    for a in e["args"]:
+        out |= _eq_pairs(a)
+    return out
+
+
+def _eff_eq_pairs(ef):
+    out = _eq_pairs(ef["v"]) | _eq_pairs(ef["c"])
+    for x in ef["f"]["args"]:
+        out |= _eq_pairs(x)
+    return out
+
+
+def _eff_refs(ef):
+    out = _free_refs(ef["v"]) | _free_refs(ef["c"])
+    for x in ef["f"]["args"]:
+        out |= _free_refs(x)
+    return {(k, n) for k, n in out if not (k == "var" and n in {v["name"] for v in ef["forall"]})}
 
 
 def _flat(e, op):
@@ -132,6 +210,10 @@ def default_style():
         metric_bare=0.0,       # (:metric minimize total-cost) without parentheses
         problem_req=0.2,       # the problem repeats (:requirements ...)
         comments=0.3,
+        shadow=0.0,            # probability that a bound variable (exists / forall condition, forall effect) is printed under a name
+                               # that is already in use: of a parameter of the action, of an enclosing bound variable, of an
+                               # object / type / fluent / action (the inner binding shadows the outer one in PDDL)
+        odd_param=0.0,         # probability that a parameter is named like an object / type / fluent / action
     )
 
 
@@ -143,6 +225,9 @@ class Printer:
         self.cur = self.feats
         self.ftype = {f["name"]: f["type"]["k"] for f in P["fluents"]}
         self.case_table = {}
+        self._used = None
+        self.params = {}          # parameters of the action being printed: seed name -> (printed name, type name)
+        self.scope = []           # enclosing quantifiers, outermost first: {seed name of the variable -> (printed name, type name)}
 
     # ---- names -----------------------------------------------------------------------
     def nm(self, kind, name, decl=False):
@@ -167,6 +252,65 @@ class Printer:
 
     def f(self, feature):
         self.cur.add(feature)
+
+    # ---- scopes: which printed name a parameter / bound variable gets ---------------------
+    def resolve(self, kind, name):
+        """(printed name, type name) of a parameter / of the innermost enclosing variable with this seed name"""
+        if kind == "param":
+            return self.params.get(name, (name, None))
+        for frame in reversed(self.scope):
+            if name in frame:
+                return frame[name]
+        return (name, None)
+
+    def other_names(self):
+        """names of other kinds of things a parameter / variable can be named like; objects: only those the domain does not
+        mention (the third-party parser keys its type-tag consistency check of the terms of one formula on the bare name:
+        `(f o2 ?o2)` is rejected, 'Term ?o2 has inconsistent type tags')"""
+        P = self.P
+        if self._used is None:
+            self._used = self.used_in_domain()
+        return ([("object", o["name"]) for o in P["objects"] if o["name"] not in self._used] + [("type", t["name"]) for t in P["types"]]
+                + [("fluent", f["name"]) for f in P["fluents"]] + [("action", a["name"]) for a in P["actions"]])
+
+    def bind(self, vs, refs, eqs=()):
+        """one quantifier binding the seed variables vs; refs: the parameters / outer variables its scope refers to.
+        -> frame {seed name: (printed name, type name)}.  With probability `shadow` a variable is printed under a name
+        that is already in use.  A name the scope refers to is only taken over by a variable of the same type (the text
+        stays well-typed; it then means something else than the seed, which is irrelevant: the text is the input), and
+        never by a variable the scope compares with it (eqs: `(= ?x ?x)` is outside the third-party grammar's fragment)."""
+        r, s = self.r, self.s
+        used = {}
+        for k, n in refs:
+            pn, tn = self.resolve(k, n)
+            used.setdefault(pn, set()).add(tn)
+        frame = {}
+        for v in vs:
+            name, tn = v["name"], v["type"]["name"]
+            pick = (name, None)
+            if r.random() < s["shadow"]:
+                cands = []
+                for pn, ptn in self.params.values():
+                    cands += [(pn, "scope:variable-named-like-parameter-of-same-type")] * 4 if ptn == tn else \
+                             [(pn, "scope:variable-named-like-parameter-of-other-type")]
+                for fr in self.scope:
+                    for pn, vtn in fr.values():
+                        cands += [(pn, "scope:variable-rebinds-enclosing-variable")] * (2 if vtn == tn else 1)
+                k, n = r.choice(self.other_names())
+                cands.append((n, "scope:variable-named-like-" + k))
+                taken = {p for p, _ in frame.values()}
+                rivals = {self.resolve(k2, n2)[0] for pr in eqs if ("var", name) in pr for k2, n2 in pr if (k2, n2) != ("var", name)}
+                cands = [(n, ft) for n, ft in cands if n not in taken and n not in rivals and used.get(n, {tn}) == {tn}]
+                if cands:
+                    pick = r.choice(cands)
+            if pick[0] in {p for p, _ in frame.values()}:
+                pick = (name, None)
+            if pick[1]:
+                self.f(pick[1])
+                if pick[0] in used:
+                    self.f("scope:body-refers-to-shadowed-name")
+            frame[name] = (pick[0], tn)
+        return frame
 
     # ---- typed lists -------------------------------------------------------------------
     def typed_list(self, items, what):
@@ -221,9 +365,12 @@ class Printer:
             return None
         return self.nm("type", t["name"])
 
-    def var_list(self, vs, kind, objectify=False):
+    def var_list(self, vs, kind, objectify=False, names=None):
+        """names: {seed name: (printed name, type name)} (default: the seed names)"""
         items = []
         for v in vs:
+            if names is not None:
+                v = dict(v, name=names[v["name"]][0])
             t = self.tname(v["type"])
             if objectify and t is not None and self._is_top(v["type"]["name"]) and self.r.random() < self.s["obj_param"]:
                 t = self.r.choice(["object", None])
@@ -295,9 +442,9 @@ class Printer:
             self.f("term:constant-in-domain")
             return self.nm("object", e["name"])
         if op == "param":
-            return "?" + self.nm("param", e["name"])
+            return "?" + self.nm("param", self.resolve("param", e["name"])[0])
         if op == "var":
-            return "?" + self.nm("var", e["name"])
+            return "?" + self.nm("var", self.resolve("var", e["name"])[0])
         if op == "fluent":
             n = self.nm("fluent", e["name"])
             if not e["args"] and self.ftype[e["name"]] != "bool" and r.random() < s["bare"]:
@@ -365,7 +512,13 @@ class Printer:
             if len(vs) > 1:
                 self.f("quantifier:several-variables")
             self.f("op:" + op)
-            return "(%s (%s) %s)" % (op, self.var_list(vs, "var"), self.pe(body))
+            frame = self.bind(vs, _free_refs(body, frozenset(v["name"] for v in vs)), _eq_pairs(body))
+            self.scope.append(frame)
+            try:
+                inner = self.pe(body)
+            finally:
+                self.scope.pop()
+            return "(%s (%s) %s)" % (op, self.var_list(vs, "var", names=frame), inner)
         raise ValueError("cannot print %r" % op)
 
     def _is_object_term(self, e):
@@ -403,6 +556,12 @@ class Printer:
         if len(set(add)) < len(add):
             self.f("effect:repeated-additive-effect")
         groups = []  # (forall vars repr, cond repr) -> [core]
+        refs = {}    # the same key -> what the effects of such a group refer to outside their forall
+        eqs = {}
+        for ef in effs:
+            key = (repr(ef["forall"]), repr(ef["c"]))
+            refs[key] = refs.get(key, set()) | _eff_refs(ef)
+            eqs[key] = eqs.get(key, set()) | _eff_eq_pairs(ef)
         for ef in effs:
             key = (repr(ef["forall"]), repr(ef["c"]))
             hit = None
@@ -411,17 +570,25 @@ class Printer:
                     if g[0] == key:
                         hit = g
             if hit is None:
-                hit = [key, ef, []]
+                hit = [key, ef, [], self.bind(ef["forall"], refs[key], eqs[key]) if ef["forall"] else {}]
                 groups.append(hit)
-            hit[2].append(self.peff_core(ef))
+            self.scope.append(hit[3])
+            try:
+                hit[2].append(self.peff_core(ef))
+            finally:
+                self.scope.pop()
         parts = []
-        for key, ef, cores in groups:
+        for key, ef, cores, frame in groups:
             body = cores[0] if len(cores) == 1 else "(and %s)" % " ".join(cores)
             if ef["c"] != upj.TRUE_E:
                 self.f("effect:when")
                 if len(cores) > 1:
                     self.f("effect:when-and")
-                body = "(when %s %s)" % (self.pe(ef["c"]), body)
+                self.scope.append(frame)
+                try:
+                    body = "(when %s %s)" % (self.pe(ef["c"]), body)
+                finally:
+                    self.scope.pop()
             elif len(cores) > 1:
                 body = None  # an unconditional group is flattened (the third-party grammar has no nested and in effects)
             if ef["forall"]:
@@ -429,7 +596,7 @@ class Printer:
                 if body is None:
                     body = "(and %s)" % " ".join(cores)
                     self.f("effect:forall-and")
-                parts.append("(forall (%s) %s)" % (self.var_list(ef["forall"], "var"), body))
+                parts.append("(forall (%s) %s)" % (self.var_list(ef["forall"], "var", names=frame), body))
             elif body is None:
                 parts += cores
             else:
@@ -554,7 +721,17 @@ class Printer:
         # actions
         for a in P["actions"]:
             self.cur = self.afeats.setdefault(a["name"], set())
-            head = " (:action %s :parameters (%s)" % (self.nm("action", a["name"], decl=True), self.var_list(a["params"], "param", objectify=True))
+            self.params, self.scope = {}, []
+            for p in a["params"]:
+                pn = p["name"]
+                if r.random() < s["odd_param"]:
+                    k, n = r.choice(self.other_names())
+                    if n not in {x for x, _ in self.params.values()}:
+                        pn = n
+                        self.f("scope:parameter-named-like-" + k)
+                self.params[p["name"]] = (pn, p["type"]["name"])
+            head = " (:action %s :parameters (%s)" % (self.nm("action", a["name"], decl=True),
+                                                      self.var_list(a["params"], "param", objectify=True, names=self.params))
             pre = self.conj(a["pre"])
             if pre is None:
                 if s["empty_pre"] == "paren":
@@ -579,6 +756,7 @@ class Printer:
                 eff = "()"
             L.append(head + ("" if pre is None else "\n  :precondition " + pre) + "\n  :effect " + eff + ")")
             self.cur = self.feats
+            self.params, self.scope = {}, []
         L.append(")")
         return "\n".join(L) + "\n"
 
@@ -652,6 +830,11 @@ def pick_style(rng, slice_, i=0):
     s["flip"] = rng.choice([0.0, 0.5, 1.0])
     s["nest"] = rng.choice([0.0, 0.3, 0.8])
     s["single_and"] = rng.choice([0.0, 0.3, 1.0])
+    # name reuse (legal PDDL the writer never emits): everywhere now and then, always in the dedicated slice
+    s["shadow"] = 1.0 if slice_ == "scope" else rng.choice([0.0, 0.0, 0.5])
+    s["odd_param"] = rng.choice([0.0, 0.0, 0.3])
+    if slice_ == "known":
+        s["shadow"] = s["odd_param"] = 0.0  # a disagreement caused by name reuse must not hide behind a known signature
     if slice_ == "case":
         s["case"] = rng.choice(["upper", "mixed-consistent", "mixed-consistent", "inconsistent"])
     elif slice_ in ("border", "known"):
@@ -722,13 +905,15 @@ def make_texts(rng, counts):
     out = []
     for slice_, n in counts:
         for i in range(n):
-            numeric = slice_ == "num" or (slice_ in ("case", "border", "known") and rng.random() < 0.5)
+            numeric = slice_ == "num" or (slice_ in ("case", "border", "known", "scope") and rng.random() < 0.5)
             style = pick_style(rng, slice_, i)
             b = style.get("border", "")
             if b in ("undef-num", "neg-literal", "binary-minus", "bare-in-eq", "metric-bare", "dup-operand", "dec", "dup-effect"):
                 numeric = True
             g = SeedGen(rng, plain_goal=0.0 if b == "rich-goal" else 1.0, keep_minus=b == "binary-minus", allow_dup=b == "dup-operand",
-                        **dict(MASK, numeric=numeric, metric="any" if (rng.random() < 0.6 or b == "metric-bare") else None))
+                        scoped=slice_ == "scope",
+                        **dict(MASK, numeric=numeric, metric="any" if (rng.random() < 0.6 or b == "metric-bare") else None,
+                               op_bias={"exists": 2, "forall": 2} if slice_ == "scope" else None))
             P = g.problem()
             if style["untyped"] and len(P["types"]) != 1:
                 style["untyped"] = False
@@ -823,10 +1008,21 @@ def _msg(ex):
     return re.sub(r"\s+", " ", str(ex))[:240]
 
 
+VAR = "?"  # a unified-planning Variable and a Parameter of one name are different things (a ParameterExp inside a quantifier binding
+           # a Variable of its name still refers to the parameter); the specification's expressions have ONE environment for both
+           # (UPExpr!Eval: env[e.name]), so bound variables are projected into a name space of their own (injective renaming,
+           # applied to both readers' results alike)
+
+
 def _lower_expr(e):
-    out = {"op": e["op"], "args": [_lower_expr(a) for a in e["args"]], "name": e["name"].lower() if e["op"] in ("obj", "fluent", "param", "var") else e["name"],
-           "v": _lower_val(e["v"]), "vars": [_lower_var(v) for v in e["vars"]]}
+    name = e["name"].lower() if e["op"] in ("obj", "fluent", "param", "var") else e["name"]
+    out = {"op": e["op"], "args": [_lower_expr(a) for a in e["args"]], "name": VAR + name if e["op"] == "var" else name,
+           "v": _lower_val(e["v"]), "vars": [_lower_bound(v) for v in e["vars"]]}
     return out
+
+
+def _lower_bound(v):
+    return {"name": VAR + v["name"].lower(), "type": _lower_type(v["type"])}
 
 
 def _lower_val(v):
@@ -843,7 +1039,7 @@ def _lower_var(v):
 
 def _lower_eff(ef):
     return {"kind": ef["kind"], "f": {"name": ef["f"]["name"].lower(), "args": [_lower_expr(a) for a in ef["f"]["args"]]},
-            "v": _lower_expr(ef["v"]), "c": _lower_expr(ef["c"]), "forall": [_lower_var(v) for v in ef["forall"]]}
+            "v": _lower_expr(ef["v"]), "c": _lower_expr(ef["c"]), "forall": [_lower_bound(v) for v in ef["forall"]]}
 
 
 def lower_upj(P):
@@ -1128,8 +1324,8 @@ def run(ctx):
     t0 = time.time()
     phases = {}
     q = ctx.quick
-    counts = [("cls", 18), ("num", 22), ("case", 6), ("border", 10), ("known", 10)] if q else \
-             [("cls", 300), ("num", 420), ("case", 80), ("border", 100), ("known", 80)]
+    counts = [("cls", 18), ("num", 22), ("scope", 8), ("case", 6), ("border", 10), ("known", 10)] if q else \
+             [("cls", 300), ("num", 420), ("scope", 120), ("case", 80), ("border", 100), ("known", 80)]
     D = 3 if q else 4
     texts = make_texts(ctx.rng, counts)
     work = ctx.sub("texts")
@@ -1194,7 +1390,7 @@ def run(ctx):
         for f in meta[cid]["features"] + sorted({x for fs in meta[cid]["action_features"].values() for x in fs}):
             forms[f] = forms.get(f, 0) + 1
     # vacuity guard (machinery, not a verdict): the main slices are printed inside the probed common fragment
-    main = [r for r in recs if meta[r["cid"]]["slice"] in ("cls", "num")]
+    main = [r for r in recs if meta[r["cid"]]["slice"] in ("cls", "num", "scope")]
     both = [r for r in main if r["reads"]["up"]["rexc"] == "none" and r["reads"]["ai"]["rexc"] == "none"]
     if len(both) * 2 < len(main):
         raise MachineryError("vacuous run: only %d of %d texts of the main slices are accepted by both readers: %r"
